@@ -411,6 +411,20 @@ func (rm *ResponseManager) finishTask(task *peertask.Task, p peer.ID, err error)
 		log.Infof("response failed: %w", err)
 	}
 
+	if err == nil {
+		// a network error signalled after the executor's last check for signals was never read:
+		// nothing else would retire this response (its remaining messages are discarded)
+		select {
+		case sigErr := <-response.signals.ErrSignal:
+			if sigErr == queryexecutor.ErrNetworkError {
+				err = sigErr
+			} else {
+				response.signals.ErrSignal <- sigErr
+			}
+		default:
+		}
+	}
+
 	if ipldutil.IsContextCancelErr(err) {
 		rm.cancelledListeners.NotifyCancelledListeners(p, response.request)
 		rm.terminateRequest(requestID)
